@@ -10,6 +10,7 @@ import (
 	"fmt"
 	"time"
 
+	"github.com/tychoish/fun"
 	"github.com/tychoish/fun/pubsub"
 	"verif/vs"
 	"verif/vs/runner"
@@ -262,6 +263,264 @@ func race(b box, k int, how string) vs.Scenario {
 	}
 }
 
+// ---------------------------------------------------------------------------
+// mixed: heterogeneous parked callers (consumers, producers and parked
+// non-destructive iterators, which share condition variables with them) on one
+// bounded container, a burst of operations from one or two threads, then the
+// quiescence oracle of the statement: no consumer parked while the container is
+// non-empty, no producer parked while it has free capacity. Len() is exact at
+// quiescence because nothing else is running. Finally Close releases everyone.
+
+type mixCont struct {
+	name string
+	cap  int
+	// calls by name; every call takes a context (ignored by non-blocking ops)
+	call    func(name string) func(ctx context.Context, v int) error
+	length  func() int
+	closeFn func()
+}
+
+func isConsumer(n string) bool {
+	return n == "Wait" || n == "WaitFront" || n == "WaitBack" || n == "Receive"
+}
+func isProducer(n string) bool {
+	return n == "BlockingAdd" || n == "WaitPushFront" || n == "WaitPushBack"
+}
+
+func mixQueue(capacity, prefill int) func() mixCont {
+	return func() mixCont {
+		var q *pubsub.Queue[int]
+		if capacity == 0 {
+			q = pubsub.NewUnlimitedQueue[int]()
+		} else {
+			q = must(pubsub.NewQueue[int](pubsub.QueueOptions{HardLimit: capacity, SoftQuota: capacity}))
+		}
+		for i := 0; i < prefill; i++ {
+			_ = q.Add(100 + i)
+		}
+		d := q.Distributor()
+		return mixCont{name: fmt.Sprintf("queue(cap=%d,pre=%d)", capacity, prefill), cap: capacity, length: q.Len, closeFn: func() { _ = q.Close() },
+			call: func(name string) func(context.Context, int) error {
+				switch name {
+				case "Wait":
+					return func(ctx context.Context, _ int) error { _, err := q.Wait(ctx); return err }
+				case "Receive":
+					return func(ctx context.Context, _ int) error { _, err := d.Receive(ctx); return err }
+				case "BlockingAdd":
+					return func(ctx context.Context, v int) error { return q.BlockingAdd(ctx, v) }
+				case "IterToEnd":
+					// a non-destructive iterator that reads everything present and
+					// then parks at the tail waiting for later additions
+					return func(ctx context.Context, _ int) error {
+						it := q.Iterator()
+						for it.Next(ctx) {
+						}
+						return it.Close()
+					}
+				case "Add":
+					return func(_ context.Context, v int) error { return q.Add(v) }
+				case "Remove":
+					return func(context.Context, int) error {
+						if _, ok := q.Remove(); !ok {
+							return errors.New("empty")
+						}
+						return nil
+					}
+				}
+				panic(name)
+			}}
+	}
+}
+
+func mixDeque(capacity, prefill int) func() mixCont {
+	return func() mixCont {
+		var q *pubsub.Deque[int]
+		if capacity == 0 {
+			q = pubsub.NewUnlimitedDeque[int]()
+		} else {
+			q = must(pubsub.NewDeque[int](pubsub.DequeOptions{Capacity: capacity}))
+		}
+		for i := 0; i < prefill; i++ {
+			_ = q.PushBack(100 + i)
+		}
+		pop := func(f func() (int, bool)) func(context.Context, int) error {
+			return func(context.Context, int) error {
+				if _, ok := f(); !ok {
+					return errors.New("empty")
+				}
+				return nil
+			}
+		}
+		iter := func(p fun.Producer[int]) func(context.Context, int) error {
+			return func(ctx context.Context, _ int) error {
+				it := p.Iterator()
+				for it.Next(ctx) {
+				}
+				return it.Close()
+			}
+		}
+		return mixCont{name: fmt.Sprintf("deque(cap=%d,pre=%d)", capacity, prefill), cap: capacity, length: q.Len, closeFn: func() { _ = q.Close() },
+			call: func(name string) func(context.Context, int) error {
+				switch name {
+				case "WaitFront":
+					return func(ctx context.Context, _ int) error { _, err := q.WaitFront(ctx); return err }
+				case "WaitBack":
+					return func(ctx context.Context, _ int) error { _, err := q.WaitBack(ctx); return err }
+				case "WaitPushFront":
+					return func(ctx context.Context, v int) error { return q.WaitPushFront(ctx, v) }
+				case "WaitPushBack":
+					return func(ctx context.Context, v int) error { return q.WaitPushBack(ctx, v) }
+				case "IterToEnd":
+					return iter(q.ProducerBlocking())
+				case "IterToEndReverse":
+					return iter(q.ProducerReverseBlocking())
+				case "PushFront":
+					return func(_ context.Context, v int) error { return q.PushFront(v) }
+				case "PushBack":
+					return func(_ context.Context, v int) error { return q.PushBack(v) }
+				case "ForcePushFront":
+					return func(_ context.Context, v int) error { return q.ForcePushFront(v) }
+				case "ForcePushBack":
+					return func(_ context.Context, v int) error { return q.ForcePushBack(v) }
+				case "PopFront":
+					return pop(q.PopFront)
+				case "PopBack":
+					return pop(q.PopBack)
+				}
+				panic(name)
+			}}
+	}
+}
+
+// mixed: `parked` callers are started first (each on its own thread); the
+// threads in `ops` then run their operation lists concurrently.
+func mixed(mk func() mixCont, parked []string, ops [][]string) vs.Scenario {
+	return func() (func(), func(*vs.End) (string, string)) {
+		returned := make([]bool, len(parked))
+		errs := make([]error, len(parked))
+		lenAtQuiet, capacity := -1, 0
+		parkedAtQuiet := make([]bool, len(parked))
+		name := ""
+		body := func() {
+			c := mk()
+			name, capacity = c.name, c.cap
+			fin := make(chan struct{}, len(parked)+len(ops))
+			ctx, cancel := context.WithCancel(context.Background())
+			for i, p := range parked {
+				i, f := i, c.call(p)
+				go func() {
+					errs[i] = f(ctx, i+1)
+					returned[i] = true
+					vs.Progress()
+					fin <- struct{}{}
+				}()
+			}
+			for _, list := range ops {
+				list := list
+				go func() {
+					for x, o := range list {
+						_ = c.call(o)(ctx, 10+x)
+					}
+					fin <- struct{}{}
+				}()
+			}
+			vs.Quiesce()
+			lenAtQuiet = c.length()
+			for i := range parked {
+				parkedAtQuiet[i] = !returned[i]
+			}
+			c.closeFn()
+			for i := 0; i < len(parked)+len(ops); i++ {
+				<-fin
+			}
+			cancel()
+		}
+		check := func(e *vs.End) (string, string) {
+			where := fmt.Sprintf("%s parked=%v ops=%v", name, parked, ops)
+			if lenAtQuiet >= 0 {
+				for i, p := range parked {
+					if !parkedAtQuiet[i] {
+						if errs[i] != nil && (isConsumer(p) || isProducer(p)) {
+							return "spurious-error-before-release/" + p, where + ": " + errs[i].Error()
+						}
+						continue
+					}
+					if isConsumer(p) && lenAtQuiet > 0 {
+						return "consumer-parked-while-nonempty/" + p, where + fmt.Sprintf(": at quiescence %s is still blocked although the container holds %d item(s)", p, lenAtQuiet)
+					}
+					if isProducer(p) && (capacity == 0 || lenAtQuiet < capacity) {
+						return "producer-parked-with-free-capacity/" + p, where + fmt.Sprintf(": at quiescence %s is still blocked although the container holds %d of %d item(s)", p, lenAtQuiet, capacity)
+					}
+				}
+			}
+			if t, d := endTag(e); t != "" {
+				return "not-released-by-close/" + t, where + ": " + d
+			}
+			return "", ""
+		}
+		return body, check
+	}
+}
+
+type mixCase struct {
+	mk     func() mixCont
+	label  string
+	parked []string
+	ops    [][]string
+	deep   bool // thorough only
+}
+
+// Queue capacities: HardLimit == SoftQuota == c. The queue's tracker lowers its
+// soft quota once the length falls below half of it, and BlockingAdd waits at
+// the (current) soft quota without spending burst credit; whether a queue in
+// that state "has free capacity" is not settled by the statement, so queue
+// cases never take a capacity-2 queue below length 1 (capacity 1 never adapts).
+func mixCases() []mixCase {
+	q, d := mixQueue, mixDeque
+	return []mixCase{
+		// producers sharing their condition variable with parked iterators
+		{q(2, 2), "q22", []string{"IterToEnd", "BlockingAdd"}, [][]string{{"Remove"}}, false},
+		{q(2, 2), "q22", []string{"BlockingAdd", "IterToEnd"}, [][]string{{"Remove"}}, false},
+		{q(1, 1), "q11", []string{"IterToEnd", "BlockingAdd"}, [][]string{{"Remove"}}, false},
+		{q(2, 2), "q22", []string{"IterToEnd", "BlockingAdd", "BlockingAdd"}, [][]string{{"Remove"}}, false},
+		{q(1, 1), "q11", []string{"IterToEnd", "BlockingAdd", "BlockingAdd"}, [][]string{{"Remove", "Remove"}}, false},
+		{q(2, 2), "q22", []string{"IterToEnd", "IterToEnd", "BlockingAdd"}, [][]string{{"Remove"}}, false},
+		{q(1, 1), "q11", []string{"IterToEnd", "BlockingAdd", "BlockingAdd"}, [][]string{{"Remove"}, {"Remove"}}, true},
+		// consumers next to parked iterators
+		{q(0, 0), "q00", []string{"IterToEnd", "Wait"}, [][]string{{"Add"}}, false},
+		{q(0, 0), "q00", []string{"IterToEnd", "Wait", "Receive"}, [][]string{{"Add", "Add"}}, false},
+		{q(0, 1), "q01", []string{"IterToEnd", "Wait", "Wait"}, [][]string{{"Add"}}, false},
+		// consumers and producers on the same bounded queue (hand-over chains)
+		{q(1, 1), "q11", []string{"BlockingAdd", "Wait"}, nil, false},
+		{q(1, 1), "q11", []string{"BlockingAdd", "BlockingAdd", "Wait", "Wait"}, nil, false},
+		{q(1, 0), "q10", []string{"Wait", "Wait", "BlockingAdd", "BlockingAdd"}, nil, false},
+		{q(1, 0), "q10", []string{"Wait", "Wait"}, [][]string{{"Add"}, {"Add"}}, false},
+		{q(1, 1), "q11", []string{"BlockingAdd", "BlockingAdd", "Wait"}, [][]string{{"Remove"}}, true},
+		{q(1, 1), "q11", []string{"BlockingAdd", "Receive", "IterToEnd"}, [][]string{{"Remove", "Add"}}, true},
+		// deque: both ends, producers and consumers, iterators
+		{d(1, 1), "d11", []string{"WaitPushBack", "WaitPushFront"}, [][]string{{"PopFront"}}, false},
+		{d(1, 1), "d11", []string{"WaitPushFront", "WaitPushBack"}, [][]string{{"PopBack"}}, false},
+		{d(2, 2), "d22", []string{"WaitPushBack", "WaitPushFront"}, [][]string{{"PopFront", "PopBack"}}, false},
+		{d(1, 0), "d10", []string{"WaitFront", "WaitBack"}, [][]string{{"PushBack"}}, false},
+		{d(0, 0), "d00", []string{"WaitFront", "WaitBack"}, [][]string{{"PushBack", "PushFront"}}, false},
+		{d(0, 0), "d00", []string{"WaitFront", "WaitBack"}, [][]string{{"PushBack"}, {"PushFront"}}, false},
+		{d(1, 1), "d11", []string{"IterToEnd", "WaitPushBack"}, [][]string{{"PopFront"}}, false},
+		{d(1, 1), "d11", []string{"IterToEndReverse", "WaitPushFront"}, [][]string{{"PopBack"}}, false},
+		{d(2, 2), "d22", []string{"IterToEnd", "IterToEndReverse", "WaitPushBack"}, [][]string{{"PopFront"}}, false},
+		{d(0, 0), "d00", []string{"IterToEnd", "WaitFront"}, [][]string{{"PushBack"}}, false},
+		{d(0, 0), "d00", []string{"IterToEndReverse", "WaitBack", "WaitFront"}, [][]string{{"PushFront", "PushBack"}}, false},
+		{d(1, 1), "d11", []string{"WaitPushBack", "WaitFront"}, nil, false},
+		{d(1, 1), "d11", []string{"WaitPushBack", "WaitPushFront", "WaitFront", "WaitBack"}, nil, false},
+		{d(1, 0), "d10", []string{"WaitFront", "WaitBack", "WaitPushBack", "WaitPushFront"}, nil, false},
+		// a Force push on a full deque replaces an item: producers stay parked
+		// (legitimately), consumers must be served
+		{d(1, 1), "d11", []string{"WaitPushBack"}, [][]string{{"ForcePushBack", "PopFront"}}, false},
+		{d(1, 0), "d10", []string{"WaitFront", "WaitBack"}, [][]string{{"ForcePushBack", "ForcePushFront"}}, false},
+		{d(2, 2), "d22", []string{"WaitPushBack", "WaitPushBack", "WaitFront"}, [][]string{{"PopBack"}}, true},
+		{d(2, 0), "d20", []string{"WaitFront", "WaitBack", "IterToEnd"}, [][]string{{"PushBack"}, {"PushFront"}}, true},
+	}
+}
+
 func build(tier string) ([]runner.Instance, time.Duration) {
 	bound, budget := 2, 70*time.Second
 	maxK, maxM := 2, 2
@@ -287,10 +546,20 @@ func build(tier string) ([]runner.Instance, time.Duration) {
 			}
 		}
 	}
+	for i, mc := range mixCases() {
+		if mc.deep && tier != "thorough" {
+			continue
+		}
+		b := bound
+		if len(mc.parked)+len(mc.ops) >= 4 && tier != "thorough" {
+			b = bound - 1
+		}
+		out = append(out, runner.Instance{Group: "mixed/" + mc.label, Name: fmt.Sprintf("mixed/%02d/%s/parked=%v,ops=%v", i, mc.label, mc.parked, mc.ops), Bound: b, Scenario: mixed(mc.mk, mc.parked, mc.ops)})
+	}
 	return out, budget
 }
 
 func main() {
 	runner.Main(runner.Options{Property: "C07", Level: "exploration", Build: build,
-		Assume: []string{"model of sync/context/channels in verif/vs (DESIGN §2.2)", "quiescence = no other thread enabled, or only threads spinning in a cycle that changes no visible state and performs no plain write", "small scope: <=2 parked callers, <=3 enabling operations"}})
+		Assume: []string{"model of sync/context/channels in verif/vs (DESIGN §2.2)", "quiescence = no other thread enabled, or only threads spinning in a cycle that changes no visible state and performs no plain write", "small scope: <=2 parked callers of one kind and <=3 enabling operations (burst/race), <=4 heterogeneous parked callers incl. parked iterators and <=2 operation threads (mixed)"}})
 }
